@@ -1,4 +1,5 @@
 import Tahoe.Mutable.SerializerInv
+import Tahoe.Mutable.Routing
 /-! C13 — one client serializes operations on a mutable node (property theorems).
 Model: Tahoe/Mutable/Serializer.lean; helper lemmas: SerializerLemmas.lean, SerializerInv.lean.
 Schedules = arbitrary lists of events `Op` (requests, completions of the operations' inner
@@ -9,10 +10,10 @@ Deferreds with success or failure, colliding attempts, eventual-queue turns), of
 | clause of the statement | theorem(s) on the model | rest |
 |---|---|---|
 | within one client, operations on a node obtained through the same capability string … | `same_cap_same_node`, `same_cap_same_node_any_hint` (one node object, hence one `_serializer`, per cap string, whatever read-cap hint is passed), `cache_stable` | WeakValueDictionary collection between two lookups: not modelled; that `DirectoryNode` keeps using the one filenode: **correspondence/monitor only** |
-| … (reading the best version, overwriting, uploading, modifying, directory edits built on them) | every such operation is a `_do_serialized` request (`Op.req`); its kind does not matter to the queue | which public methods go through `_do_serialized` (seed C13-b: `DirectoryNode._read`): **monitor only** (reads requested right after edits) |
+| … (reading the best version, overwriting, uploading, modifying, directory edits built on them) | every such operation is a `_do_serialized` request (`Op.req`); its kind does not matter to the queue | `every_node_op_serialized_none_reenters`, `every_directory_op_serialized`, `routing_tables_complete`: a routing table (which public operation of the backing node each file / directory operation reaches, that it enters `_do_serialized`), compared with the code by instrumentation (seed C13-b = a disagreement on `list`/`get`/…) |
 | run one at a time, in request order | `starts_and_finishes_alternate`, `serial_order`, `successes_in_request_order` | |
 | none starts before the previous one finished | `serial_order`, `no_start_before_last_attempt`, `no_attempt_after_finish` (an operation = all of its attempts; seed C13-c) | that `_modify_and_retry` chains the next attempt into the operation's Deferred: **correspondence** (the real function is the callable in the scripted schedules) |
-| a failed operation does not block later ones | `failed_op_does_not_block` (for operation bodies that do not enqueue on their own node and wait: `NoInner`), `idle_means_all_done`, `no_inner_never_blocked`; `self_enqueue_deadlocks` / `self_enqueue_counterexample`: a body that does (seed C13-e) blocks the node for ever | that no operation body of the real code does so: **monitor only** (read-only retry family: every Deferred fires once the grid is quiescent) |
+| a failed operation does not block later ones | `failed_op_does_not_block` (for operation bodies that do not enqueue on their own node and wait: `NoInner`), `idle_means_all_done`, `no_inner_never_blocked`; `self_enqueue_deadlocks` / `self_enqueue_counterexample`: a body that does (seed C13-e) blocks the node for ever | that no operation body of the real code does so: `every_node_op_serialized_none_reenters` on the routing table, whose `bodyEnqueues` column is compared with the code by instrumentation, incl. the read-only retry path (seed C13-e = a disagreement) |
 | so concurrent directory edits through one client never lose each other's changes | `no_lost_edit`, `no_lost_directory_edit` (final contents = the successful modifiers folded in request order over what the first read) | each directory edit being such a modifier on a name map: C20; competing writers from other clients: C12 (monitor here: collision family) |
 -/
 namespace Tahoe.C13
@@ -278,6 +279,32 @@ theorem no_lost_directory_edit {D : Type} (edit : Nat → D → D) (base : D) (o
 example : ((runOps [.req none, .req none, .req none, .req none, .fin 0 .ok, .fin 1 .fail, .fin 2 .ok, .retry 3, .fin 3 .ok]).core.content.foldl
     (fun (d : List String) i => match i with
       | 0 => d ++ ["a"] | 1 => d ++ ["b"] | 2 => d.filter (· != "a") | _ => d ++ ["c"]) ["keep"]) = ["keep", "c"] := by decide
+
+/-! ### which operations go through the serializer (routing table, compared with the code by instrumentation) -/
+section Routing
+open Tahoe.Routing
+
+/-- **every whole-file operation is serialized and none re-enters**: each public whole-file operation
+of a mutable node hands its body to `_do_serialized`, and no body requests another serialized
+operation on its own node (so the schedules of the real operations are `NoInner` schedules, to which
+`failed_op_does_not_block` applies). -/
+theorem every_node_op_serialized_none_reenters (o : NodeOp) : serialized o = true ∧ bodyEnqueues o = false := by
+  cases o <;> exact ⟨rfl, rfl⟩
+
+/-- **directory operations are built on serialized operations only**: every read and every edit of a
+directory reaches its backing node through a serialized whole-file operation whose body does not
+re-enter -- reads through `download_best_version`, edits through `modify`. -/
+theorem every_directory_op_serialized (d : DirOp) :
+    dirOpCalls d ≠ [] ∧ ∀ o, o ∈ dirOpCalls d → serialized o = true ∧ bodyEnqueues o = false := by
+  refine ⟨by cases d <;> simp [dirOpCalls], fun o _ => every_node_op_serialized_none_reenters o⟩
+
+/-- the tables are complete: every constructor is listed (the harness walks these lists) -/
+theorem routing_tables_complete : (∀ o : NodeOp, o ∈ allNodeOps) ∧ (∀ d : DirOp, d ∈ allDirOps) := by
+  refine ⟨fun o => by cases o <;> simp [allNodeOps], fun d => by cases d <;> simp [allDirOps]⟩
+
+example : dirOpCalls .moveChildWithin = [.downloadBestVersion, .modify, .modify] ∧ dirOpCalls .hasChild = [.downloadBestVersion] := by decide
+
+end Routing
 
 /-- once a mutable node has been created for a cap string it stays in the cache under its key -/
 theorem cache_stable (m : Maker) (key : String) (n : Nat) (h : m.cache.lookup key = some n)
